@@ -164,7 +164,93 @@ CHECKS['C06'] = {
     'technique': 'bounded exhaustive exploration (configuration x program space); linearity in the direction decides all directions on the basis',
 }
 
+CHECKS['C01'] = {
+    'text': 'lincomb over all 27 (x1, x2, out) register triples (all 5 aliasing patterns) x all scalar pairs of S^2 x '
+            'sizes straddling every internal regime (1, 3, 99, 100, 101, 49999, 50000, 50001; 2-d/3-d shapes) x dtypes x '
+            'per-register layouts (C, F, strided; reversed / swapped in thorough) x tensor, discretized and (nested) '
+            'product spaces, with register contents tiled so that every pair (thorough: triple) of alphabet values meets '
+            'in every call; all derived arithmetic (+ - * /, in-place forms, scalar forms, powers, multiply/divide with '
+            'out, zero/one/copy/assign/set_zero, power-space broadcasting); BFS over histories of 117 in-place '
+            'operations (depth 2, 3 thorough) deduplicated by register contents. Oracle: exact equality with an '
+            'independent NumPy model; non-output registers bit-identical; gaps of strided outputs untouched.',
+    'note': 'exact arithmetic on dyadic alphabets (float32 included); NaN only in an out that is not an operand; '
+            'overlapping memory of distinct objects is outside the contract and not explored',
+    'technique': 'bounded exhaustive configuration-space + operation-history exploration against a reference model',
+}
+CHECKS['C02'] = {
+    'text': 'Tensor spaces (shape, dtype incl. int64, layout, weighting none/const/array, exponent 1/2/inf/1.5/3, sizes '
+            'straddling the dot / tensordot / BLAS regimes), uniform_discr in 1-3 dimensions with EVERY per-side '
+            'nodes_on_bdry combination (4/16/64) x extents incl. unit cell volume, 37 product-space structures (nested, '
+            'weighted, mixed) and custom inner/norm/dist callables: inner, norm and dist equal the documented weighted '
+            'formulas with independently computed (rational-arithmetic) quadrature weights; the Gram matrix over the '
+            'real basis decides the inner-product axioms for all elements; homogeneity, triangle inequality, norm = '
+            'sqrt(inner), dist = norm(x-y) = dist(y,x) on all pairs of V^n / packed vectors; ||one||^2 = domain volume.',
+    'note': 'formula not judged where the documentation is silent or contradicts itself (counted as unspecified); '
+            'tolerance 4 eps n for dyadic sums, 1e-12 (1e-5 single) where roots/powers enter',
+    'technique': 'bounded exhaustive configuration-space exploration against a reference model; sesquilinearity decides all inputs via the Gram matrix',
+}
+CHECKS['C04'] = {
+    'text': 'Breadth-first enumeration of ALL well-typed expressions with <= 2 combinators (thorough: 3 over a reduced '
+            'pool) over 34 linear / nonlinear / functional / field-valued leaves on real and complex spaces, scalars '
+            '{2, -1, 1/2, 0, 1j} and vectors, with every documented overload (+ - unary * @ / **, scalar and vector '
+            'left/right forms, pointwise product): construction succeeds, domain/range are the typed ones, the value at '
+            '4 points equals a reference interpreter applying the documented algebra table recursively (out-of-place and '
+            'in-place into a NaN-filled out), operands untouched, is_linear sound and complete on the linear fragment.',
+    'note': 'exact comparison when all intermediates are small dyadics, else 1e-12 x largest intermediate; expressions '
+            'whose docstrings contradict each other (operators on fields times scalars) counted as unspecified',
+    'technique': 'bounded exhaustive program-space exploration (expression-tree BFS) against a reference interpreter',
+}
+CHECKS['C11'] = {
+    'text': 'Lock-step: admm_linearized, adupdates (scalar / element / list inner steps, 1-2 blocks) and doubleprox_dc run '
+            'to exactly k iterations for every k <= N against their shipped reference implementations. Resumption '
+            '(confluence of histories): landweber, kaczmarz, proximal_gradient, mlem/osmlem, steepest_descent and pdhg '
+            '(x_relax and y passed back): ALL splittings n+m <= N (thorough: all three-way splittings) must give the '
+            'bit-identical iterate of the single run. Callbacks of every solver in the anchored files: exactly one record '
+            'per iteration, record k == result of a run with niter=k, niter=0 changes nothing. Problems: typed pools of '
+            'operators (identity, matrices, multiply, gradients, broadcast) x library functionals x step sizes x starts.',
+    'note': 'N = 5 (quick) / 8 (thorough); large pools with <= 1 deviation from the default instance; randomness owned '
+            '(random=False, explicit steps); accelerated pdhg and CG excluded from resumption as the property says',
+    'technique': 'bounded exhaustive history-space exploration (all splittings, lock-step refinement against reference implementations)',
+}
+CHECKS['C14'] = {
+    'text': 'Uniform and non-uniform partitions in 1-3 dimensions (limits x shapes {1,2,3,5} x all four per-side '
+            'nodes_on_bdry combinations x 6 coordinate vectors): every construction route (all consistent 3- and '
+            '4-parameter subsets of min/max/shape/cell_sides per axis, _fromintv, _fromgrid with dict / partial / negative '
+            'keys, nonuniform_partition, RectPartition) gives the same partition; tiling invariants; index(p) and '
+            'fractional index on all boundaries, nodes, midpoints and quarter points; all int / slice (start, stop, step) '
+            '/ Ellipsis / list index expressions to depth 2; insert, append, squeeze, byaxis with all index choices. '
+            'Reference model in exact rational arithmetic.',
+    'note': 'exact where the reference numbers are dyadic and for all child-cells == parent-cells checks, else 1e-12; '
+            'undocumented index forms not enumerated; cell_sizes_vecs on 1-point axes is the documented 0.0',
+    'technique': 'bounded exhaustive configuration-space exploration (continued from non-initial states) against a reference model',
+}
+CHECKS['C15'] = {
+    'text': 'space.element(callable) over 18 callable styles (native, vectorize-wrapped, broadcasting over every '
+            'coordinate subset, in-place positional / keyword-only / dual, constants, ufuncs, callable objects) x shapes x '
+            'dtypes x partitions against a scalar Python loop (exact); sampling_function / point_collocation incl. '
+            'tensor-valued callables over all calling conventions; nearest / linear / per-axis interpolators with every '
+            'scheme tuple over uniform and non-uniform vectors and 5 value dtypes: the full interpolation matrix (one '
+            'basis array per node) on all nodes, midpoints (ties), quarter points and points outside the hull, for every '
+            'calling convention (single points, arrays, sparse / dense meshes, out=); Resampling matrices over all 100 '
+            'ordered pairs of 10 partitions; linear_deform for all constant displacements of a dyadic alphabet.',
+    'note': 'interpolation is linear in the node values, so the matrix decides all value arrays; reference weights by '
+            'bisection in exact rational arithmetic',
+    'technique': 'bounded exhaustive configuration-space exploration against a reference model; linearity decides all value arrays',
+}
+CHECKS['C18'] = {
+    'text': 'DFT / inverse over shapes with even and odd lengths (1-3 d) x every non-empty axes subset x 4 dtypes x '
+            'halfcomplex x sign x numpy / pyfftw (+ pre-planned): the full matrix against a direct-summation DFT; inverse '
+            'recovers inputs; in-place == out-of-place. pyfftw call HISTORIES (all length-3 sequences over call again / '
+            'other input / second operator / out=) from empty FFTW wisdom. FourierTransform x per-axis shift x '
+            'temporaries: round trip, reciprocal grid, the documented closed-form integral of the piecewise constant '
+            'interpolant; Gaussian convergence under refinement (n = 16..256, odd and even). Wavelets (18 quick / all 106 '
+            'thorough) x nlevels x 9 pad modes x shapes x axes: perfect reconstruction on the basis; adjoint = weighted '
+            'transpose for orthogonal wavelets with periodization.',
+    'note': 'FFTW wisdom reset per state; input destruction judged only where deterministic (FFTW_MEASURE picks '
+            'algorithms by timing); convergence decided on a fixed refinement horizon',
+    'technique': 'bounded exhaustive configuration-space + call-history exploration against a reference model; linearity decides all inputs via the full matrix',
+}
+
 _PENDING = 'check under construction in this session; not claimed until it runs quietly on the unchanged tree'
 NOT_APPLICABLE = dict((p, _PENDING) for p in
-                      ['C01', 'C02', 'C04', 'C11', 'C12',
-                       'C14', 'C15', 'C18'])
+                      ['C12'])
